@@ -10,3 +10,12 @@ claim("C02", "TLC model checking of the exported table + trace validation of rea
       "also constructed as a real SpaceGroup and its reported operations, flag, LATT, reduced list and both lookups are validated by TLC "
       "against Trace_SpaceGroup (plus seeded permutations of the operation-list order).",
       "Trusts TLC and the Symop decoding written in the spec; operation identity is by packed code as reported by the object (C11 checks that coding).")
+
+claim("C11", "TLC trace validation of codec/spelling/shift/apply events + exhaustive MC of the Symop module",
+      "MC_Symop proves at design level that the ternary/duodecimal packing is a bijection, the text form is injective, composition respects "
+      "equality modulo the lattice and InverseOp is the inverse for every unimodular matrix over {-1,0,1}. Every operation code of the 530 settings "
+      "plus seeded random codes is driven through from_integer_code -> (rotation, translation) -> integer_code -> str -> from_string_code and validated "
+      "field by field by TLC; spellings from the spec's grammar (text certified by TLC) are parsed by the real reader; translations offset by integers "
+      "and rounding noise go through the constructor, +, -, inverted(); 3-vector/homogeneous/Cartesian application is compared with Symop!ApplyRaw. "
+      "The thorough tier enumerates the 34,012,224 packed codes as a prefix bounded by its time budget (evidence states the prefix).",
+      "Trusts TLC, the grid projection (residual > 1e-9 is rejected as OnGrid) and the decode written in the spec. Spelling grammar = Symop!Spelling.")
